@@ -42,20 +42,22 @@ def BlockRef.forkFlags (b : BlockRef) : Nat :=
   b.fork + (if b.image.isSome then 0x10 else 0) + (if b.data.isSome then 0x20 else 0) +
     (if b.willInit then 0x40 else 0) + (if b.rel.isNone then 0x80 else 0)
 
+/-- an optional part of an encoding -/
+def optBytes {α} (f : α → Bytes) : Option α → Bytes
+  | some a => f a
+  | none => []
+
 def encImageHdr (i : Image) : Bytes :=
-  le 2 i.data.length ++ le 2 i.holeOffset ++ [UInt8.ofNat i.bimgInfo] ++
-    (match i.holeLength with | some h => le 2 h | none => [])
+  le 2 i.data.length ++ le 2 i.holeOffset ++ [UInt8.ofNat i.bimgInfo] ++ optBytes (le 2) i.holeLength
 
 def encRel (r : RelFileNode) : Bytes := le 4 r.spc ++ le 4 r.db ++ le 4 r.rel
 
 /-- XLogRecordBlockHeader [+ image header] [+ RelFileNode] + BlockNumber -/
 def encBlockHdr (b : BlockRef) : Bytes :=
   [UInt8.ofNat b.id, UInt8.ofNat b.forkFlags] ++ le 2 ((b.data.getD []).length) ++
-    (match b.image with | some i => encImageHdr i | none => []) ++
-    (match b.rel with | some r => encRel r | none => []) ++ le 4 b.blkno
+    optBytes encImageHdr b.image ++ optBytes encRel b.rel ++ le 4 b.blkno
 
-def encBlockData (b : BlockRef) : Bytes :=
-  (match b.image with | some i => i.data | none => []) ++ b.data.getD []
+def encBlockData (b : BlockRef) : Bytes := optBytes (·.data) b.image ++ b.data.getD []
 
 structure WalRecord where
   xid : Nat
@@ -74,9 +76,8 @@ def encMainHdr (d : Bytes) : Bytes :=
 
 /-- the header part of the payload: block headers, origin, top-level xid, main-data header -/
 def encHeaders (r : WalRecord) : Bytes :=
-  r.blocks.flatMap encBlockHdr ++
-    (match r.origin with | some o => 253 :: le 2 o | none => []) ++
-    (match r.topXid with | some x => 252 :: le 4 x | none => []) ++ encMainHdr r.mainData
+  r.blocks.flatMap encBlockHdr ++ optBytes (fun o => 253 :: le 2 o) r.origin ++
+    optBytes (fun x => 252 :: le 4 x) r.topXid ++ encMainHdr r.mainData
 
 /-- everything after the 24-byte XLogRecord -/
 def encBody (r : WalRecord) : Bytes := encHeaders r ++ r.blocks.flatMap encBlockData ++ r.mainData
@@ -219,11 +220,23 @@ def WalSegment.remLen (s : WalSegment) (b : Nat) : Nat :=
     | some it => it.1 + it.2 - b
     | none => 0
 
-def encPageHeader (s : WalSegment) (k : Nat) : Bytes :=
-  let rem := s.remLen (pageStart k)
-  let info := (if rem > 0 then 1 else 0) + (if k = 0 then 2 else 0) + (if s.removable then 4 else 0)
-  le 2 s.magic ++ le 2 info ++ le 4 s.tli ++ le 8 (s.startAddr + 8192 * k) ++ le 4 rem ++ zeros 4 ++
-    (if k = 0 then le 8 s.sysid ++ le 4 s.segSize ++ le 4 8192 else [])
+/-- XLogPageHeaderData (24 bytes: magic, info, timeline, page address, rem_len, padding) followed by the
+long-header extension `ext` (system id, segment size, block size on the first page of a segment; else nothing) -/
+def pageHdrBytes (magic info tli addr rem : Nat) (ext : Bytes) : Bytes :=
+  le 2 magic ++ (le 2 info ++ (le 4 tli ++ (le 8 addr ++ (le 4 rem ++ (zeros 4 ++ ext)))))
+
+/-- xlp_info: FIRST_IS_CONTRECORD 1 when the page starts inside a record, LONG_HEADER 2 on page 0, BKP_REMOVABLE 4 -/
+def pageInfo (s : WalSegment) (k rem : Nat) : Nat :=
+  (if rem > 0 then 1 else 0) + (if k = 0 then 2 else 0) + (if s.removable then 4 else 0)
+
+def longExt (s : WalSegment) (k : Nat) : Bytes :=
+  if k = 0 then le 8 s.sysid ++ (le 4 s.segSize ++ le 4 8192) else []
+
+/-- the header of page `k` when `rem` bytes of a record begun earlier are still to come -/
+def pageHeader (s : WalSegment) (k rem : Nat) : Bytes :=
+  pageHdrBytes s.magic (pageInfo s k rem) s.tli (s.startAddr + 8192 * k) rem (longExt s k)
+
+def encPageHeader (s : WalSegment) (k : Nat) : Bytes := pageHeader s k (s.remLen (pageStart k))
 
 /-- cut the stream into the pages `k, k+1, …` (`n` pages) -/
 def encPagesFrom (s : WalSegment) : Nat → Nat → Bytes → Bytes
